@@ -238,9 +238,9 @@ func (h *Session) Close() {
 		return
 	}
 	h.closed = true
+	close(h.C) // under the lock: sendNotification tests closed and sends while holding it
 	h.mutex.Unlock()
 	close(h.closeChan)
-	close(h.C)
 	h.Conn.Close()
 	time.Sleep(time.Second) // give time for goroutines to end
 }
